@@ -3,10 +3,16 @@ tasks are ordinary tasks; command-line targets resolved through target_regex / -
 
 Correspondence: namespaces mixing static creators and `@create_after(executed=, target_regex=, creates=)`
 creators are loaded with the real `doit.loader.load_tasks(allow_delayed=True)`, given to the real
-`TaskControl` (`process(selection)`), and run with the real serial `Runner` on a recording reporter and a
-recording fake dependency manager.  The observation (reporter/dep-manager events, creator evaluations,
-the exception that escaped, exit status) is compared with `Delayed.run_cmd` (Model/Delayed.v: model of
-_filter_tasks + the dispatcher with the loader branch + the serial runner) evaluated inside Coq.
+`TaskControl` (`process(selection)`), and run
+  (a) with the real serial `Runner`, and
+  (b) with the real `MThreadRunner` (2-3 workers) under the deterministic scheduler of harness/runlib.py
+      (Sched/FakeQueue/FakeChild: one thread runs at a time, the schedule is drawn from ctx.rng),
+on a recording reporter and a recording fake dependency manager.  The observation (reporter/dep-manager events,
+creator evaluations, the exception that escaped, exit status) is compared with (a) `Delayed.run_cmd` (model of
+_filter_tasks + the dispatcher with the loader branch + the serial runner), (b) `Delayed.run_script_cmd`: the
+runner's calls (generator.send / select_task / execute_task / process_task_result / finish) are recorded as a
+script, the model executes the same script on its dispatcher and must reproduce every yield of the generator,
+every event and the exit status.  Everything is evaluated inside Coq.
 
 Input of the model = what the real TaskControl.__init__ left (tasks dict in key order, targets dict, one
 DelayedLoader per placeholder) read BEFORE process(); creators as data: for every creator c and every
@@ -21,12 +27,21 @@ Encoding (list of ints): runner events as in harness/runlib.py / Runner.enc_even
   [11] cycle error [12] hold error; new: [14 c l t] creator c evaluated through loader object l with
   generate_tasks(t, ...); [30] reporter.runtime_error (InvalidTask caught by run_all); [15 f]
   InvalidCommand(not_found=f) escaped run_all; [16] KeyError escaped; [40] InvalidCommand from
-  process(); then [-1, exit status]; then [-2, 1]: the selected state satisfies the hypothesis init_ok of
+  process(); then [-1, exit status]; then [-2, 1]: the selected state satisfies the hypotheses init_ok / keys_ok of
   the theorems (Delayed.init_okb over all names of the case).  Every string (task name, file name, command-line word) has one id.
-Markers used only by the independent oracle (stripped before comparison): [50 c] body of creator c
-started, [51 k] action of task k started.
+  Scripted (parallel) runs only, Delayed.EOp: [70 p] generator.send(node p) (0 = None) called, answered by
+  [60 k] node k / [61 0] "hold on" / [62 0] StopIteration; [71 k] select_task(k) called, [63 b] its result;
+  [72 k] process_task_result(k) called; [73 0] finish called.  ([5 k] is the OExec step of the script.)
+Markers used only by the independent oracle / statistics (stripped before comparison): [50 c] body of creator c
+started, [51 k] action of task k started, [52 c n] creator c evaluated while n of its placeholder names had an ExecNode.
+
+Independent oracle (no model): O1 a creator body starts at most once per run (every runner incl. real threads, DoitMain,
+and `python -m doit run -n 2 -P thread|process` on the fixed dodo family e2e_family); O1b a placeholder name is never
+reported before its creator ran; O2 only after a final report of the `executed` task; O3 tasks run once, after their
+dependencies; O4 unknown words are errors; O5/O5b command-line targets: the producer is processed, nothing outside the
+closure; O6 every created task whose placeholder name was reported is reported exactly once, as its own behaviour demands.
 """
-import io, os, re, sys, threading
+import io, json, os, re, sys, threading
 import common
 from common import Outcome
 
@@ -36,6 +51,9 @@ CHECK = {'run': 'CkRun', 'utd': 'CkUpToDate', 'err': 'CkError'}
 OUTC = {'ok': 'OOk', 'fail': 'OFail', 'error': 'OError'}
 DEFAULT_BEH = dict(check='run', outcome='ok', dbignore=False, teardown=False)
 FINAL = (2, 3, 4, 6)
+SCRIPT_MODEL = os.environ.get('C15_NO_SCRIPT_MODEL') is None
+# which variant of Model/Delayed.v the runs are compared with (VOwn = the seeded change C15b; only for experiments)
+MODEL_VARIANT = os.environ.get('C15_MODEL_VARIANT', 'VHead')
 
 
 # ------------------------------------------------------------------------------------------ generation
@@ -48,8 +66,13 @@ def gen_beh(rng, calm):
 
 
 def gen_case(rng, kind=None):
-    """kind: None (random) | 'k3' | 'creates' | 'regex' | 'auto' | 'unknown'"""
+    """kind: None (random) | 'k3' | 'creates' | 'regex' | 'auto' | 'unknown' | 'multi' (see gen_multi)"""
+    if kind == 'multi':
+        return gen_multi(rng)
     calm = rng.random() < 0.45
+    # two command-line targets produced by the same creator, failure-free behaviours
+    two = kind in ('regex', 'auto') and rng.random() < 0.4
+    calm = calm or two
     ns = rng.choice([1, 2, 2, 3, 4])
     nd = rng.choice([1, 1, 2, 2, 3])
     snames = ['s%d' % i for i in range(ns)]
@@ -58,7 +81,7 @@ def gen_case(rng, kind=None):
         fname = 'd%d' % j
         creates = None
         if rng.random() < (0.3 if kind != 'creates' else 1.0):
-            creates = ['c%d%s' % (j, x) for x in 'ab'[:rng.choice([1, 2, 2])]]
+            creates = ['c%d%s' % (j, x) for x in 'abc'[:rng.choice([1, 2, 2, 3])]]
         creators.append(dict(fname=fname, cid=j, creates=creates))
     placeholders = {c['fname']: (c['creates'] or [c['fname']]) for c in creators}
     all_ph = [p for c in creators for p in placeholders[c['fname']]]
@@ -169,9 +192,92 @@ def gen_case(rng, kind=None):
         sel = [rng.choice(['nope', 'f_%s_9' % c0['fname'], 'f_dx'])]
     elif kind in ('regex', 'auto'):
         sel = ['f_%s_%d' % (c0['fname'], rng.randrange(0, 3))] + ([rng.choice(words)] if rng.random() < 0.3 else [])
+        if rng.random() < 0.35:      # a second target of the same creator
+            sel.append('f_%s_%d' % (c0['fname'], rng.randrange(0, 3)))
+        made = [t for it in c0['items'] for t in it['targets'] if t.startswith('f_%s_' % c0['fname'])]
+        if two and len(made) >= 2:
+            sel = rng.sample(made, 2)
     auto = (rng.random() < 0.3) if kind != 'auto' else True
     return dict(statics=statics, creators=creators, sel=sel, auto=auto, cont=rng.random() < 0.5, always=rng.random() < 0.12,
                 kind=kind or 'random')
+
+
+def gen_multi(rng):
+    """one creator with 2-3 names in `creates`, every name yielded (plain task or group of sub-tasks, with or
+    without targets), placeholder nodes made BEFORE the first evaluation: a static task `s0` with several of the
+    names as task_dep (shared parent), and/or an `executed` trigger (under a parallel runner the other
+    placeholders are instantiated while the trigger runs); optionally a second creator triggered by a created name"""
+    calm = rng.random() < 0.75
+    ns = rng.choice([2, 3, 3, 4])
+    snames = ['s%d' % i for i in range(ns)]
+    names = ['c0%s' % x for x in 'abc'[:rng.choice([2, 2, 3])]]
+    with_targets = rng.random() < 0.5
+    shared = rng.random() < 0.7
+    creators = [dict(fname='d0', cid=0, creates=list(names))]
+    second = rng.random() < 0.3
+    if second:
+        creators.append(dict(fname='d1', cid=1, creates=rng.choice([None, ['c1a'], ['c1a', 'c1b']])))
+    placeholders = {c['fname']: (c['creates'] or [c['fname']]) for c in creators}
+    statics = []
+    for i, nm in enumerate(snames):
+        later = snames[i + 1:]
+        td = [x for x in rng.sample(later, min(len(later), rng.randrange(0, 3))) if rng.random() < 0.6]
+        if i == 0 and shared:
+            sub = rng.sample(names, rng.choice([2, len(names)]))
+            pos = rng.randrange(0, len(td) + 1)
+            td = td[:pos] + sub + td[pos:]
+            if second and rng.random() < 0.5:
+                td.append(rng.choice(placeholders['d1']))
+        statics.append(dict(name=nm, task_dep=td, setup=[x for x in later if rng.random() < 0.1][:1], file_dep=[],
+                            targets=['f_%s' % nm] if rng.random() < 0.4 else [], beh=gen_beh(rng, calm)))
+    for j, c in enumerate(creators):
+        fname = c['fname']
+        if j == 0:
+            # the trigger must not depend on the shared parent s0
+            pool = snames[1:] if shared else snames
+            c['executed'] = rng.choice(pool) if (pool and rng.random() < (0.55 if shared else 0.9)) else None
+            c['regex'] = ('f_%s_' % fname) if (with_targets and rng.random() < 0.4) else None
+            order = list(names)
+            if rng.random() < 0.4:
+                rng.shuffle(order)
+            items = []
+            for i, nm in enumerate(order):
+                grp = rng.random() < 0.3
+                for sub in (['0', '1'][:rng.choice([1, 2])] if grp else [None]):
+                    k = len(items)
+                    items.append(dict(sub=sub, basename=nm,
+                                      task_dep=[x for x in snames[1:] if rng.random() < 0.25][:2], setup=[],
+                                      targets=['f_%s_%d' % (fname, k)] if with_targets else [],
+                                      file_dep=(['f_%s_%d' % (fname, rng.randrange(0, k))] if (with_targets and k and rng.random() < 0.3) else []),
+                                      beh=gen_beh(rng, calm)))
+            if rng.random() < 0.2:
+                items.append(dict(sub=None, basename='x0_9', task_dep=[], setup=[], targets=[], file_dep=[], beh=gen_beh(rng, calm)))
+        else:
+            c['executed'] = rng.choice(names + snames[1:] + [None])
+            c['regex'] = None
+            items = []
+            for i, nm in enumerate(placeholders[fname]):
+                items.append(dict(sub=None, basename=nm, task_dep=[x for x in names if rng.random() < 0.3][:1], setup=[],
+                                  targets=['f_%s_%d' % (fname, i)] if rng.random() < 0.5 else [], file_dep=[], beh=gen_beh(rng, calm)))
+        c['shape'] = 'gen'; c['items'] = items
+        c['ph_beh'] = {p: dict(DEFAULT_BEH, check=rng.choice(['run', 'run', 'run', 'utd'])) for p in placeholders[fname]}
+    r = rng.random()
+    if r < 0.3:
+        sel = None
+    elif r < 0.5 and shared:
+        sel = ['s0'] + ([rng.choice(names)] if rng.random() < 0.4 else [])
+    elif r < 0.8:
+        sel = list(names); rng.shuffle(sel)
+        if rng.random() < 0.3:
+            sel = sel[:2]
+        if rng.random() < 0.3:
+            sel.insert(rng.randrange(0, len(sel) + 1), rng.choice(snames))
+    elif r < 0.9:
+        sel = ['%s:0' % names[1], names[0]] if rng.random() < 0.5 else [names[1], '%s:0' % names[0], names[-1]]
+    else:
+        sel = [rng.choice(names + snames) for _ in range(rng.choice([1, 2, 3]))]
+    return dict(statics=statics, creators=creators, sel=sel, auto=rng.random() < 0.2, cont=rng.random() < 0.5,
+                always=rng.random() < 0.1, kind='multi')
 
 
 # ------------------------------------------------------------------------------------------ namespace
@@ -310,7 +416,7 @@ def match1(arms, default, var='n'):
     return 'match %s with %s | _ => %s end' % (var, ' '.join('| %d => %s' % (k, v) for k, v in arms), default)
 
 
-def render(case, snap, wake, nid, sfx):
+def render(case, snap, wake, nid, sfx, script=None):
     sel = case['sel']
     defs = []
     defs.append('Definition tb%s (n : name) : option dtask := %s.' % (sfx, match1([(k, 'Some (%s)' % v) for k, v in snap['tab']], 'None')))
@@ -335,9 +441,11 @@ def render(case, snap, wake, nid, sfx):
         arms.append((f, match1(per, '0', 'k')))
     defs.append('Definition rn%s (f k : name) : name := %s.' % (sfx, match1(arms, '0', 'f')))
     selc = 'None' if sel is None else '(Some %s)' % nl([nid(w) for w in sel])
-    expr = ('run_cmd false cr%s wk%s (fun x => 50 + x) %s %s bo%s ix%s rm%s rn%s %s FUEL (loaded tb%s ld%s tg%s) %s %s' % (
-        sfx, sfx, b(case['cont']), b(case['always']), sfx, sfx, sfx, sfx, b(case['auto']), sfx, sfx, sfx,
-        nl(snap['order']), selc)) + ' %d%%nat' % (len(nid.m) + 2)
+    fmt = '%s ' + MODEL_VARIANT + ' cr%s wk%s (fun x => 50 + x) %s %s bo%s ix%s rm%s rn%s %s FUEL (loaded tb%s ld%s tg%s) %s %s'
+    expr = fmt % ('run_cmd' if script is None else 'run_script_cmd',
+                  sfx, sfx, b(case['cont']), b(case['always']), sfx, sfx, sfx, sfx, b(case['auto']), sfx, sfx, sfx,
+                  nl(snap['order']), selc)
+    expr += ('' if script is None else ' ' + script) + ' %d%%nat' % (len(nid.m) + 2)
     return '\n'.join(defs), expr
 
 
@@ -362,15 +470,44 @@ def creator_outputs(case, nid, to_loads):
     return res, names
 
 
-def run_impl(case, flavour='serial'):
+class GenProxy:
+    """records what the runner sends to / gets from the dispatcher generator"""
+    def __init__(self, gen, log, nid):
+        self.gen, self.log, self.nid = gen, log, nid
+
+    def send(self, node):
+        self.log.append([70, self.nid(node.task.name) if node is not None else 0])
+        try:
+            r = self.gen.send(node)
+        except StopIteration:
+            self.log.append([62, 0])
+            raise
+        self.log.append([61, 0] if isinstance(r, str) else [60, self.nid(r.task.name)])
+        return r
+
+
+class DispProxy:
+    def __init__(self, disp, log, nid):
+        self._disp = disp
+        self.generator = GenProxy(disp.generator, log, nid)
+
+    def __getattr__(self, a):
+        return getattr(self._disp, a)
+
+
+def run_impl(case, flavour='serial', par=None):
+    """flavour: 'serial' | 'thread' (MThreadRunner, real threads, 2 workers) | 'dthread' (MThreadRunner under the
+    deterministic scheduler of harness/runlib.py; par = dict(k=<workers>, sched=[choices]))"""
     import doit.control as C
     import doit.runner as R
     from doit.loader import load_tasks
     from doit.exceptions import InvalidTask, InvalidDodoFile, InvalidCommand
+    import runlib
     nid = Ids()
     log = []
+    gate = [None]
     try:
-        ns = build_ns(case, log, nid)
+        ns = build_ns(case, log, nid, gate=gate)
         task_list = load_tasks(ns, allow_delayed=True)
         tc = C.TaskControl(task_list, auto_delayed_regex=case['auto'])
     except (InvalidTask, InvalidDodoFile) as e:
@@ -423,6 +560,7 @@ def run_impl(case, flavour='serial'):
     init_loader = {t.name: bool(t.loader) for t in task_list}
     # ---- seam: generate_tasks as called by _add_task (which creator, through which loader object, for which name)
     orig_gt = C.generate_tasks
+    creates_of = {c['cid']: (c['creates'] or [c['fname']]) for c in case['creators']}
 
     def gt(func_name, gen_result, gen_doc=None):
         # called from TaskDispatcher._add_task: `ref` = the creator, `this_task.loader` = the loader object used
@@ -430,6 +568,10 @@ def run_impl(case, flavour='serial'):
         c = getattr(fl.get('ref'), '_c15_cid', 99)
         l = loader_name.get(id(getattr(fl.get('this_task'), 'loader', None)), '?')
         log.append([14, c, nid(l), nid(func_name)])
+        # how many placeholder nodes of this creator exist at the moment of the evaluation (marker for the statistics)
+        disp_self = fl.get('self')
+        if disp_self is not None and c in creates_of:
+            log.append([52, c, sum(1 for nm in creates_of[c] if nm in disp_self.nodes)])
         return orig_gt(func_name, gen_result, gen_doc)
     wake = {}
     orig_uw = C.TaskDispatcher._update_waiting
@@ -452,12 +594,40 @@ def run_impl(case, flavour='serial'):
         if rc is None:
             dep = FakeDep(ph, log, nid)
             rep = Reporter(log, nid)
+            disp = tc.task_dispatcher()
             if flavour == 'serial':
                 runner = R.Runner(dep, rep, continue_=case['cont'], always_execute=case['always'])
-            else:
+            elif flavour == 'thread':
                 runner = R.MThreadRunner(dep, rep, continue_=case['cont'], always_execute=case['always'], num_process=2)
+            else:
+                runlib.S = runlib.Sched(par['sched'], False)
+                runlib.S.log = log
+
+                def g():
+                    runlib.S.block(threading.current_thread(), ('busy', 0))
+                gate[0] = g
+
+                class SRunner(R.MThreadRunner):
+                    Queue = staticmethod(runlib.FakeQueue)
+                    Child = staticmethod(runlib.FakeChild)
+
+                    def select_task(self, node, tasks_dict):
+                        log.append([71, nid(node.task.name)])
+                        r = R.MThreadRunner.select_task(self, node, tasks_dict)
+                        log.append([63, 1 if r else 0])
+                        return r
+
+                    def process_task_result(self, node, base_fail):
+                        log.append([72, nid(node.task.name)])
+                        return R.MThreadRunner.process_task_result(self, node, base_fail)
+
+                    def finish(self):
+                        log.append([73, 0])
+                        return R.MThreadRunner.finish(self)
+                runner = SRunner(dep, rep, continue_=case['cont'], always_execute=case['always'], num_process=par['k'])
+                disp = DispProxy(disp, log, nid)
             try:
-                rc = runner.run_all(tc.task_dispatcher())
+                rc = runner.run_all(disp)
             except InvalidCommand as e:
                 log.append([15, nid(e.not_found)] if e.not_found else [15, 0])
                 rc = 3
@@ -467,29 +637,41 @@ def run_impl(case, flavour='serial'):
                 rc = 3
             except KeyError as e:
                 log.append([16]); rc = 3; crash = repr(e)
+            except runlib.Hang:
+                rc = 98; crash = 'all workers blocked (hang)'
             except BaseException as e:  # noqa
                 log.append([32]); rc = 97; crash = repr(e)
     finally:
         C.generate_tasks = orig_gt
         C.TaskDispatcher._update_waiting = orig_uw
         sys.stdout, sys.stderr = saved_streams
+        gate[0] = None
     events = [list(e) for e in log]
     trace = [x for ev in events if ev[0] < 50 for x in ev]
-    return dict(events=events, trace=trace, rc=rc, snap=snap, wake=wake, nid=nid, tc=tc, initial=initial,
-                cnames=cnames, crash=crash, init_loader=init_loader)
+    # deterministic parallel run: the runner's calls (markers 60-73) are part of what is compared
+    strace = [x for ev in events if (ev[0] < 50 or 60 <= ev[0] < 80) for x in ev]
+    return dict(events=events, trace=trace, strace=strace, rc=rc, snap=snap, wake=wake, nid=nid, tc=tc, initial=initial,
+                cnames=cnames, crash=crash, init_loader=init_loader,
+                arity=(list(runlib.S.arity) if (flavour == 'dthread' and runlib.S) else []))
 
 
 # ------------------------------------------------------------------------------------------ independent oracle
-def oracle(case, res, out, flavour):
+def expected_report(beh, always, has_actions=True):
+    """what the runner must report for a task that is reached in a failure-free run: the event codes"""
+    if beh['dbignore']:
+        return [2]
+    if beh['check'] == 'utd' and not always:
+        return [3]
+    return [5, 6]
+
+
+def oracle(case, res, out, flavour, par=None):
     """property C15 judged on the observed behaviour only (no model)"""
     ev = res['events']; nid = res['nid']; rc = res['rc']
     inv = {v: k for k, v in nid.m.items()}
     viol = []
-    small = dict(sel=case['sel'], auto=case['auto'], cont=case['cont'], always=case['always'], flavour=flavour,
-                 statics=[dict(name=s['name'], task_dep=s['task_dep'], setup=s['setup'], targets=s['targets'], file_dep=s['file_dep'],
-                               beh=s['beh']) for s in case['statics']],
-                 creators=[dict(fname=c['fname'], executed=c['executed'], creates=c['creates'], regex=c['regex'], shape=c['shape'],
-                                items=[dict((k, v) for k, v in it.items()) for it in c['items']]) for c in case['creators']])
+    # the complete generated case: `./check C15 --replay <file>` runs it again
+    small = dict(case, flavour=flavour, par=par)
 
     def final_before(name, pos):
         k = nid(name)
@@ -510,6 +692,50 @@ def oracle(case, res, out, flavour):
             if c['executed'] and not final_before(c['executed'], p):
                 viol.append(dict(what='creator %s evaluated before its `executed` task %s was processed' % (c['fname'], c['executed']),
                                  shape='creator-before-trigger', case=small))
+        # O1b exactly once: a placeholder name that got a final report was materialised first
+        phs = c['creates'] or [c['fname']]
+        for nm in phs:
+            fin = [i for i, e in enumerate(ev) if e[0] in FINAL and e[1] == nid(nm)]
+            if fin and not [p for p in calls if p < fin[0]]:
+                viol.append(dict(what='task %s of the delayed creator %s was reported (event %s) but the creator was never evaluated before' % (
+                    nm, c['fname'], ev[fin[0]]), shape='placeholder-reported-without-creation', case=small))
+        # O6 every created task is executed: failure-free run (exit status 0, so nothing was cut short); for every
+        #    name of `creates` that was reported, the task of that name yielded by the (one) evaluation, and the
+        #    sub-tasks of that name, are each reported exactly as their own behaviour demands, exactly once
+        if rc == 0 and len(calls) == 1:
+            used = [e for e in ev if e[0] == 14 and e[1] == c['cid']]
+            to_load = inv.get(used[0][3]) if used else None
+            yielded = res['cnames'].get((c['cid'], to_load), [])
+            by_name = {}
+            for it in c['items']:
+                base = it['basename'] or to_load
+                by_name['%s:%s' % (base, it['sub']) if it['sub'] is not None else base] = it
+            for nm in phs:
+                if not any(e[0] in FINAL and e[1] == nid(nm) for e in ev):
+                    continue
+                for y in yielded:
+                    if y != nm and not y.startswith(nm + ':'):
+                        continue
+                    it = by_name.get(y)
+                    # a group task made by generate_tasks has no behaviour of its own: the fake dependency manager
+                    # answers for it with the behaviour registered for the placeholder of that name
+                    want = expected_report(it['beh'] if it else c['ph_beh'].get(y, DEFAULT_BEH), case['always'])
+                    # "ignored" propagates along dependencies (and from an ignored trigger to the task that takes over the
+                    # node of the placeholder): one skip_ignore report after another task's skip_ignore is accepted instead
+                    ign = [i for i, e in enumerate(ev) if e[0] == 2 and e[1] == nid(y)]
+                    if len(ign) == 1 and any(e[0] == 2 and e[1] != nid(y) for e in ev[:ign[0]]) and \
+                            not any(e[0] in (3, 5, 6) and e[1] == nid(y) for e in ev):
+                        continue
+                    for code in want:
+                        k = sum(1 for e in ev if e[0] == code and e[1] == nid(y))
+                        if k != 1:
+                            viol.append(dict(what='created task %s (creator %s, creates=%s): expected exactly one event %d, observed %d' % (
+                                y, c['fname'], c['creates'], code, k), shape='created-task-not-executed-once', case=small))
+                    if it and want == [5, 6] and flavour != 'proc':
+                        k = sum(1 for e in ev if e[0] == 51 and e[1] == nid(y))
+                        if k != 1:
+                            viol.append(dict(what='created task %s: its action ran %d times' % (y, k),
+                                             shape='created-task-not-executed-once', case=small))
     # O3 created (and static) tasks: executed at most once, after their task_deps
     deps = {}
     for s in case['statics']:
@@ -589,6 +815,17 @@ def oracle(case, res, out, flavour):
             if not any(e[0] in FINAL and e[1] == nid(prod) for e in ev):
                 viol.append(dict(what='target %s: its producer %s was never processed (exit status 0)' % (w, prod),
                                  shape='regex-target-producer-not-run', case=small))
+    # O5b several words: every word that is resolved through target_regex / --auto-delayed-regex and that some task
+    #     produces in the end has its producer processed (exit status 0: nothing was cut short)
+    if len(sel) > 1 and rc == 0:
+        tc = res['tc']
+        for w in dict.fromkeys(sel):
+            if w in init_tasks or w in init_targets or w.split(':', 1)[0] in init_tasks:
+                continue
+            prod = tc.targets.get(w)
+            if prod is not None and not any(e[0] in FINAL and e[1] == nid(prod) for e in ev):
+                viol.append(dict(what='target %s (one of the words %s): its producer %s was never processed (exit status 0)' % (w, sel, prod),
+                                 shape='regex-target-producer-not-run', case=small))
     out.violations += viol
     return viol
 
@@ -631,32 +868,173 @@ def strip_files(case):
     return c
 
 
+# ------------------------------------------------------------------------------------------ end-to-end family
+E2E_DODO = """
+import os
+from doit import create_after
+HERE = os.path.dirname(os.path.abspath(__file__))
+LOG = os.path.join(HERE, 'log.txt')
+DOIT_CONFIG = {'dep_file': os.path.join(HERE, 'db'), 'verbosity': 0, 'backend': 'json'}
+NAMES = %(names)r
+
+def rec(what):
+    return "echo %%s >> %%s" %% (what, LOG)
+
+def task_pre():
+    return {'actions': [rec('run:pre')]}
+
+%(top)s
+
+@create_after(%(deco)s)
+def task_gen():
+    with open(LOG, 'a') as fobj:
+        fobj.write('EVAL\\n')
+    for name in NAMES:
+        task = {'basename': name, 'actions': [rec('run:' + name)]}
+        if %(targets)r:
+            out = os.path.join(HERE, name + '.out')
+            task['actions'] = ["echo x > %%s && %%s" %% (out, rec('run:' + name))]
+            task['targets'] = [out]
+        yield task
+"""
+E2E_TOP = """
+def task_top():
+    return {'actions': [rec('run:top')], 'task_dep': NAMES}
+"""
+
+
+def e2e_family(ctx, out):
+    """fixed family through the command line in a child interpreter: `doit run [-n 2 -P thread|process]` on a dodo file
+    with ONE creator of 2-3 names (executed=pre and/or a shared parent, with/without targets): the creator body must
+    run exactly once, after pre; every created task exactly once; exit status 0"""
+    import subprocess
+    shapes = []
+    for names in (['a', 'b'], ['a', 'b', 'c']):
+        for trig, top in ((True, False), (False, True), (True, True)):
+            for targets in (False, True):
+                shapes.append((names, trig, top, targets))
+    runners = [[], ['-n', '2', '-P', 'thread'], ['-n', '2', '-P', 'process']]
+    combos = [(sh, r) for sh in shapes for r in runners]
+    if ctx.quick:   # every shape once, the runner rotating; plus the (2 names, trigger) shapes on every runner
+        combos = [(sh, runners[i % 3]) for i, sh in enumerate(shapes)] + [(shapes[0], r) for r in runners[1:]] + [(shapes[1], runners[2])]
+    n = 0
+    for j, ((names, trig, top, targets), rargs) in enumerate(combos):
+        d = ctx.subdir('e2e%d' % j)
+        deco = ', '.join((["executed='pre'"] if trig else []) + ['creates=NAMES'])
+        with open(os.path.join(d, 'dodo.py'), 'w') as f:
+            f.write(E2E_DODO % dict(names=names, top=E2E_TOP if top else '', deco=deco, targets=targets))
+        argv = ['run'] + rargs + (['top'] if (top and not trig) else [])
+        try:
+            p = subprocess.run([common.PY, '-m', 'doit', '-f', os.path.join(d, 'dodo.py')] + argv, cwd=d, env=common.impl_env(),
+                               stdout=subprocess.PIPE, stderr=subprocess.PIPE, text=True, timeout=120)
+            rc, err = p.returncode, p.stderr
+        except subprocess.TimeoutExpired:
+            rc, err = 124, 'timeout'
+        lines = open(os.path.join(d, 'log.txt')).read().split() if os.path.exists(os.path.join(d, 'log.txt')) else []
+        n += 1
+        case = dict(e2e=True, names=names, executed='pre' if trig else None, shared_parent=top, targets=targets, argv=argv)
+        out.count('e2e:%s' % (' '.join(rargs[2:]) or 'serial'))
+        out.nontrivial.add(('e2e', tuple(names), trig, top, targets, tuple(rargs)))
+        k = lines.count('EVAL')
+        if k != 1:
+            out.violations.append(dict(what='`doit %s`: creator with creates=%s evaluated %d times (log %s; stderr %s)' % (
+                ' '.join(argv), names, k, lines, err.strip().splitlines()[-1:]), shape='creator-evaluated-twice' if k > 1 else 'creator-not-evaluated', case=case))
+        if rc != 0:
+            out.violations.append(dict(what='`doit %s`: exit status %s (stderr %s)' % (' '.join(argv), rc, err.strip().splitlines()[-1:]),
+                                       shape='e2e-exit-status', case=case))
+        if 'EVAL' in lines and 'run:pre' in lines and trig and lines.index('EVAL') < lines.index('run:pre'):
+            out.violations.append(dict(what='`doit %s`: creator evaluated before pre' % ' '.join(argv), shape='creator-before-trigger', case=case))
+        for nm in names:
+            if lines.count('run:' + nm) != 1:
+                out.violations.append(dict(what='`doit %s`: created task %s executed %d times' % (' '.join(argv), nm, lines.count('run:' + nm)),
+                                           shape='created-task-not-executed-once', case=case))
+    return n
+
+
 # ------------------------------------------------------------------------------------------ driver
 def prepare(res, case):
-    tc = res['tc']
     res['targets0'] = set()
     for s in case['statics']:
         res['targets0'].update(s['targets'])
     res['has_loader'] = res['init_loader']
 
 
+def prenodes(res):
+    """largest number of placeholder nodes of one creator that existed when that creator was evaluated"""
+    return max([e[2] for e in res['events'] if e[0] == 52] or [0])
+
+
+def ops_of(res):
+    """the runner's calls of a deterministic parallel run as a Coq list of Delayed.sop (script of the run)"""
+    ops = []
+    evs = res['events']
+    hold = any(e[0] == 12 for e in evs)
+    for e in evs:
+        if e[0] == 70:
+            ops.append('OSend %s' % ('None' if e[1] == 0 else '(Some %d)' % e[1]))
+        elif e[0] == 71:
+            ops.append('OSelect %d' % e[1])
+        elif e[0] == 5:
+            ops.append('OExec %d' % e[1])
+        elif e[0] == 72:
+            ops.append('OResult %d' % e[1])
+        elif e[0] == 73:
+            if hold:
+                ops.append('OHoldErr')
+            ops.append('OFinish')
+    return nl(ops)
+
+
+def run_parallel(ctx, case, out, idx, par, cases, metas, tag):
+    """one run under the deterministic scheduler: oracle + (model) the same script on Delayed.run_script"""
+    try:
+        res_p = run_impl(case, 'dthread', par)
+    except BaseException as e:  # noqa
+        out.violations.append(dict(what='deterministic thread run failed in the harness: %r' % e, shape='thread-runner-crash', case=dict(case, par=par)))
+        return None
+    if 'skip' in res_p:
+        return None
+    prepare(res_p, case)
+    oracle(case, res_p, out, 'dthread', par)
+    if res_p['rc'] in (97, 98):
+        out.violations.append(dict(what='thread runner (deterministic scheduler, %d workers) crashed: %s' % (par['k'], res_p['crash']),
+                                   shape='thread-runner-crash', case=dict(case, flavour='dthread', par=par)))
+        return res_p
+    if not SCRIPT_MODEL:
+        return res_p
+    sfx = '%sp%d' % (idx, tag)
+    defs, expr = render(case, res_p['snap'], res_p['wake'], res_p['nid'], sfx, script=ops_of(res_p))
+    expected = res_p['strace'] + [-1, res_p['rc']] + ([] if res_p['strace'][:1] == [40] else [-2, 1])
+    cases.append(dict(defs=defs, model=expr, expected=expected,
+                      desc=dict(sel=case['sel'], auto=case['auto'], kind=case['kind'], flavour='dthread', par=par)))
+    metas.append((case, res_p))
+    return res_p
+
+
 def run(ctx):
     out = Outcome()
     out.rule = ('random namespaces: 1-4 static tasks (task_dep/setup/file_dep/targets) + 1-3 create_after creators (executed = none/'
-                'static/other placeholder, creates = none/1-2 names honest or not, target_regex = none/own prefix/shared prefix; body = '
+                'static/other placeholder, creates = none/1-3 names honest or not, target_regex = none/own prefix/shared prefix; body = '
                 'generator of sub-tasks with default or explicit basename / plain basename tasks / single dict / empty) x selection '
                 '(none, task, placeholder, basename:sub existing or not, created target, target nobody produces, unknown word; 1-3 words) x '
-                '--auto-delayed-regex x --continue x --always.  non-trivial = distinct case in which a creator was evaluated or '
-                'the selection/run ended with an error')
+                '--auto-delayed-regex x --continue x --always; kind `multi`: one creator with 2-3 names in creates, all yielded (plain or '
+                'groups, with/without targets), a static task with several of them as task_dep (shared parent) and/or an executed= trigger, '
+                'optionally a second creator triggered by a created name.  Runners: serial Runner (trace compared with Delayed.run_cmd); '
+                'MThreadRunner with 2-3 workers under the deterministic scheduler of runlib (every call of the runner into the dispatcher '
+                'recorded as a script and compared with Delayed.run_script_cmd; all multi cases, every 4th other case); MThreadRunner with '
+                'real threads; `python -m doit run [-n 2 -P thread|process]` on a fixed dodo family.  non-trivial = distinct case in which a '
+                'creator was evaluated or the selection/run ended with an error')
     rng = ctx.rng
-    n = ctx.n(210, 2400)
-    kinds = [None] * 6 + ['k3', 'creates', 'regex', 'auto', 'unknown']
+    n = ctx.n(240, 2700)
+    kinds = [None] * 5 + ['k3', 'creates', 'regex', 'auto', 'unknown'] + ['multi'] * 4
     cases, metas = [], []
+    n_serial = 0
     n_thread = 0
+    n_dthread = 0
     n_main = 0
     skipped = 0
     i = 0
-    while len(cases) < n and i < 3 * n:
+    while n_serial < n and i < 3 * n:
         kind = kinds[i % len(kinds)]
         i += 1
         case = gen_case(rng, kind)
@@ -670,7 +1048,8 @@ def run(ctx):
             out.count('skipped:' + res['skip'].split(':')[0])
             continue
         prepare(res, case)
-        idx = len(cases)
+        idx = n_serial
+        n_serial += 1
         defs, expr = render(case, res['snap'], res['wake'], res['nid'], str(idx))
         expected = res['trace'] + [-1, res['rc']] + ([] if res['trace'][:1] == [40] else [-2, 1])
         cases.append(dict(defs=defs, model=expr, expected=expected, desc=dict(sel=case['sel'], auto=case['auto'], kind=case['kind'])))
@@ -680,6 +1059,8 @@ def run(ctx):
         ncreate = sum(1 for e in res['events'] if e[0] == 14)
         out.count('creations:%d' % min(ncreate, 3))
         out.count('rc:%s' % res['rc'])
+        if prenodes(res) >= 2:
+            out.count('serial: >=2 placeholder nodes of one creator before its evaluation')
         for e in res['events']:
             if e[0] in (15, 16, 30, 40, 11, 12):
                 out.count('error-event:%d' % e[0])
@@ -691,8 +1072,20 @@ def run(ctx):
             out.samples.append(dict(selection=case['sel'], creators=[dict(fname=c['fname'], executed=c['executed'], creates=c['creates'],
                                                                           regex=c['regex']) for c in case['creators']],
                                     names=inv, observed=expected))
+        # the same case on the thread runner under the deterministic scheduler: oracle + script compared with the model
+        if res['trace'][:1] != [40] and (case['kind'] == 'multi' or idx % 4 == 0):
+            for tag in range(2 if (case['kind'] == 'multi' or not ctx.quick) else 1):
+                par = dict(k=rng.choice([2, 2, 3]), sched=[rng.randrange(0, 60) for _ in range(40)])
+                res_p = run_parallel(ctx, case, out, idx, par, cases, metas, tag)
+                if res_p is not None:
+                    n_dthread += 1
+                    out.count('dthread-k:%d' % par['k'])
+                    if prenodes(res_p) >= 2:
+                        out.count('dthread: >=2 placeholder nodes of one creator before its evaluation')
+                    if sum(1 for e in res_p['events'] if e[0] == 14):
+                        out.nontrivial.add((str(case['sel']), 'dthread', tuple(res_p['strace'])))
         # the same case on the thread runner (real threads): oracle only
-        if idx % (5 if ctx.quick else 3) == 0:
+        if idx % (6 if ctx.quick else 3) == 0:
             try:
                 res_t = run_impl(case, 'thread')
                 if 'skip' not in res_t:
@@ -701,9 +1094,9 @@ def run(ctx):
                     n_thread += 1
                     if res_t['rc'] in (97, 98):
                         out.violations.append(dict(what='thread runner crashed: %s' % res_t['crash'], shape='thread-runner-crash',
-                                                   case=dict(sel=case['sel'])))
+                                                   case=dict(case, flavour='thread')))
             except BaseException as e:  # noqa
-                out.violations.append(dict(what='thread runner run failed in the harness: %r' % e, shape='thread-runner-crash', case=dict(sel=case['sel'])))
+                out.violations.append(dict(what='thread runner run failed in the harness: %r' % e, shape='thread-runner-crash', case=dict(case, flavour='thread')))
         # DoitMain end to end (real dependency manager, json DB in a temp dir): exit status and creator count
         if idx % (10 if ctx.quick else 6) == 0:
             c2 = strip_files(case)
@@ -713,7 +1106,8 @@ def run(ctx):
             for c in c2['creators']:
                 k = sum(1 for e in log_m if e[0] == 50 and e[1] == c['cid'])
                 if k > 1:
-                    out.count('doitmain-creator-twice')
+                    out.violations.append(dict(what='DoitMain run: creator %s evaluated %d times' % (c['fname'], k), shape='creator-evaluated-twice',
+                                               case=dict(c2, flavour='doitmain')))
             res2 = None
             try:
                 res2 = run_impl(c2)
@@ -724,9 +1118,13 @@ def run(ctx):
                 if want3 != (rc_m == 3):
                     out.violations.append(dict(what='DoitMain exit status %s but the runner-level run of the same namespace gave %s (%s)' % (
                         rc_m, res2['rc'], err_m[-200:]), shape='doitmain-exit-status', case=dict(sel=case['sel'], auto=case['auto'])))
-    out.evaluations = len(cases)
-    out.extra['thread_runner_runs_oracle_only'] = n_thread
+    n_e2e = e2e_family(ctx, out)
+    out.evaluations = len(cases) + n_e2e
+    out.extra['serial_runs_compared_with_model'] = n_serial
+    out.extra['deterministic_thread_runs_compared_with_model'] = n_dthread
+    out.extra['thread_runner_runs_real_threads_oracle_only'] = n_thread
     out.extra['doitmain_runs'] = n_main
+    out.extra['e2e_command_line_runs'] = n_e2e
     out.extra['skipped_cases'] = skipped
     bad = common.compare_with_model(ctx, PRE, cases)
     out.traces_validated = len(cases)
@@ -737,11 +1135,39 @@ def run(ctx):
                        'Dependency (status_is_ignore/get_status/save_success) is an oracle per task object',
                        'string operations of _filter_tasks (split, startswith, re.match, placeholder names) are oracles given as tables',
                        'iteration order of ExecNode.waiting_me is recorded from the run (wake_rank)',
-                       'parallel runners: only the independent oracle is applied (they share the dispatcher; creators run in the main thread)']
-    out.extra['trusted_base'] = ['harness/c15.py: rendering of the loaded TaskControl state and of the creator outputs as Coq terms']
+                       'parallel runners: the runner (MRunner.run_tasks/get_next_job: which result is consumed when, how many jobs are requested) is '
+                       'NOT modelled; its calls into the dispatcher and its own select_task/process_task_result/finish calls are recorded as a '
+                       'script, the model replays that script (Delayed.run_script) and must reproduce every yield, event and the exit status; '
+                       'the theorems on run_script hold for EVERY script.  Process runner and real threads: independent oracle only']
+    out.extra['trusted_base'] = ['harness/c15.py: rendering of the loaded TaskControl state and of the creator outputs as Coq terms',
+                                 'harness/runlib.py Sched/FakeQueue/FakeChild: deterministic scheduler under MThreadRunner']
     return out
 
 
 def replay(ctx, payload):
-    print(payload)
-    return 0
+    """re-run the case of a replay file (written for a violation of the independent oracle) and judge it again"""
+    case = payload.get('case') or {}
+    if case.get('e2e') or 'creators' not in case:
+        print(json.dumps(payload, indent=1, default=str))
+        return 0
+    flavour = case.get('flavour') or 'serial'
+    par = case.get('par')
+    out = Outcome()
+    if flavour == 'doitmain':
+        rc_m, log_m, err_m = run_main(ctx, case, 0)
+        bad = [c['fname'] for c in case['creators'] if sum(1 for e in log_m if e[0] == 50 and e[1] == c['cid']) > 1]
+        print('DoitMain exit status %s; creators evaluated more than once: %s' % (rc_m, bad))
+        return 1 if bad else 0
+    res = run_impl(case, flavour, par)
+    if 'skip' in res:
+        print('case skipped: %s' % res['skip'])
+        return 0
+    prepare(res, case)
+    inv = {v: k for k, v in res['nid'].m.items()}
+    print('flavour=%s selection=%s exit status=%s' % (flavour, case['sel'], res['rc']))
+    print('events (names: %s)' % inv)
+    print(res['events'])
+    viol = oracle(case, res, out, flavour, par)
+    for v in viol:
+        print('VIOLATION-REPRODUCED shape=%s: %s' % (v['shape'], v['what']))
+    return 1 if viol else 0
